@@ -115,7 +115,10 @@ void LowMemoryRescaledHmmLikelihood::computeForward_()
   }
   for (size_t j = 0; j < nbStates_; j++)
   {
-    likelihood1_[j] = tmp[j] / scale;
+    if (scale > 0)
+      likelihood1_[j] = tmp[j] / scale;
+    else
+      likelihood1_[j] = 0;
   }
   lScales[0] = log(scale);
 
